@@ -2,9 +2,9 @@
    unit, list, prod, sumbool, sumor mapped to OCaml's); no Extract Constant;
    N / positive / nat / string / ascii stay the extracted inductive datatypes. *)
 From Coq Require Import Extraction ExtrOcamlBasic.
-From KV Require Import Base Chan Atomic Mem Mutex Sig.
+From KV Require Import Base Chan Atomic Mem Mutex Sig Vec.
 From KV.proofs Require Import Inv.
 Set Extraction Output Directory ".".
-Extraction "kmodel.ml" astep init arun res_received invb
+Extraction "kmodel.ml" astep init arun res_received invb drain_observed
   mstep minit access_safe mutex_ords_ok
   sstep sinit safe final_of owner_events claimer_events sinits.
